@@ -14,3 +14,4 @@ open Rtsp.Ledger.C11
 #print axioms closed_connection_holds_nothing
 #print axioms session_timeout_releases
 #print axioms teardown_keeps_invariant
+#print axioms other_conns_unaffected
